@@ -46,6 +46,9 @@ def check_run(case, r, acc, workdir):
     if r.out_text is None:
         classes.append('no-output')
         return False, classes
+    if not any(e['argv'] and e['argv'][-1] != r.infile and e['role'] == 'main' for e in r.log):
+        acc.violation('output-without-any-candidate',
+                      'an output file exists although the command was never run on any candidate', case)
     in_toks = vspec.tokens_of_text(case['text'])
     out_toks = vspec.tokens_of_text(r.out_text)
     # (a) re-run the real command on the output file
